@@ -321,7 +321,12 @@ func writeEvidence(verif string, def *propDef, c *Ctx, p *Program, tier string, 
 		samples = append(samples, "none: analysis did not run")
 	}
 	cov["samples"] = samples
-	cov["trusted_base"] = []string{"go/types + go/ssa (x/tools v0.29.0) model of the source", "rule tables in /verif/sacheck/rules_*.go", "/verif/known-findings.txt"}
+	tb := []string{"go/types + go/ssa (x/tools v0.29.0) model of the source", "rule tables in /verif/sacheck/rules_*.go", "/verif/known-findings.txt", "/verif/sacheck/inventory.txt (frozen function inventory)"}
+	if p != nil && p.Normalised != nil {
+		tb = append(tb, "source-level inliner of golang.org/x/tools v0.29.0 (copied under sacheck/xt) and the de-literalisation pass of normalise.go, both followed by a full type-check")
+		cov["normalisation"] = p.Normalised
+	}
+	cov["trusted_base"] = tb
 	if mres != nil {
 		killed, silent, equiv := 0, 0, 0
 		for _, m := range mres {
